@@ -714,3 +714,42 @@ func (c *Ctx) ReachingStore(x *X, at ssa.Instruction) *X {
 	}
 	return c.E(pick.Val)
 }
+
+// CellFields returns the values stored into the fields of a struct cell
+// (a local struct variable or literal), keyed by field name; the last store
+// in block order wins. Works also when the cell's address escapes.
+func (c *Ctx) CellFields(x *X) map[string]*X {
+	var al *ssa.Alloc
+	if a, ok := x.V.(*ssa.Alloc); ok {
+		al = a
+	} else if x.Cell != nil {
+		al = x.Cell
+	}
+	out := map[string]*X{}
+	if al == nil {
+		if x.Op == "complit" {
+			for _, fi := range x.Args {
+				out[fi.Name] = fi.Args[0]
+			}
+		}
+		return out
+	}
+	st, ok := deref(al.Type()).Underlying().(*types.Struct)
+	if !ok {
+		return out
+	}
+	if refs := al.Referrers(); refs != nil {
+		for _, r := range *refs {
+			if fa, ok := r.(*ssa.FieldAddr); ok {
+				if fr := fa.Referrers(); fr != nil {
+					for _, u := range *fr {
+						if s, ok := u.(*ssa.Store); ok && s.Addr == fa {
+							out[st.Field(fa.Field).Name()] = c.E(s.Val)
+						}
+					}
+				}
+			}
+		}
+	}
+	return out
+}
